@@ -45,7 +45,10 @@ func (m *MessageCopyFromGenerator) Generate(writer io.Writer) (int, error) {
 			Id(m.i.WithPackage(Diag, "Diagnostics")).
 			BlockFunc(func(g *j.Group) {
 				g.Add(diags)
-				m.GenerateFields(g)
+				// A message without fields has nothing to copy (its placeholder attribute has no struct field)
+				if !m.IsEmpty {
+					m.GenerateFields(g)
+				}
 				g.Return(j.Id("diags"))
 			})
 
@@ -272,6 +275,15 @@ func (f *FieldCopyFromGenerator) genObjectListOrMap() *j.Statement {
 			g.Var().Id("t").Id(f.i.WithType(f.GoElemType))
 
 			g.If(j.Id("!v.Null && !v.Unknown")).BlockFunc(func(g *j.Group) {
+				// A message without fields has nothing to copy, only the element itself is created
+				if m.IsEmpty {
+					if f.IsNullable {
+						// t = &Nested{}
+						g.Id("t").Op("=&").Id(f.i.WithType(f.GoElemTypeIndirect)).Values()
+					}
+					return
+				}
+
 				// tf := v
 				g.Id("tf").Op(":=").Id("v")
 
